@@ -131,10 +131,11 @@ Returns:
         s = self._sampler
         m = self._evalmon
 
-        _eval = s._all_evals
-        _iter = s._all_iters
         if reset: self._reset_sampler()
         elif reset is None: self._reset_solved()
+        # get counts after any reset (a reset solver starts counting from zero)
+        _eval = s._all_evals
+        _iter = s._all_iters
 
         # get evals before taking a step (needed for backfill)
         evals = [len(getattr(i, '_evalmon', ())) for i in s._allSolvers]
